@@ -271,12 +271,14 @@ def main(args):
                     rid += 1
                     v, res, h = scen.build(d, sc)
                     try:
-                        v.is_valid(copy.deepcopy(I1))
+                        first = copy.deepcopy(I1)
+                        v.is_valid(first)
                         try:
-                            v.validate(copy.deepcopy(I1))
+                            v.validate(first)
                         except _JS.exceptions.ValidationError:
                             pass
-                        I = copy.deepcopy(I2)
+                        # (when the two instances are the same one, it is the very same OBJECT that is presented again)
+                        I = first if I1 is I2 else copy.deepcopy(I2)
 
                         def module_validate(inst, sc=sc, cls=cls):
                             r = _JS.RefResolver.from_schema(copy.deepcopy(sc["schema"]), id_of=cls.ID_OF, store=copy.deepcopy(sc["store"]))
@@ -300,6 +302,37 @@ def main(args):
                                  "instance": I2, "class_from_$schema": False, "format_checker": False}
                     kinds["valid-schema"] += 1
                     ck.count((d, sc["name"], repr(I1), repr(I2)), True)
+    # look-alike schemas: Python equality identifies true with 1 and 1 with 1.0; JSON does not.  Module validate() is first
+    # given the well-formed twin, then the ill-formed one is recorded like any other invalid schema
+    twins = [({"uniqueItems": True}, {"uniqueItems": 1}), ({"minLength": 1}, {"minLength": True}), ({"maxItems": 0}, {"maxItems": False}),
+             ({"required": ["a"], "minProperties": 1}, {"required": ["a"], "minProperties": True}),
+             ({"properties": {"a": {"minItems": 1}}}, {"properties": {"a": {"minItems": True}}})]
+    for d in DRAFTS:
+        cls = _CLS[d]
+        for good, bad in twins:
+            if c11.classify_check_schema(d, good)[0] != "ok" or c11.classify_check_schema(d, bad)[0] == "ok":
+                continue
+            rid += 1
+            for inst in ([1, 1], "ab", {"a": [1]}):
+                try:
+                    _JS.validate(inst, good, cls=cls)
+                except _JS.exceptions.ValidationError:
+                    pass
+            spy = Spy()
+            J = spy.wrap({"a": [1]})
+            cs = raised(lambda: cls.check_schema(bad))
+            first = next(cls(cls.META_SCHEMA).iter_errors(bad), None)
+            rec = {"id": rid, "kind": "invalid-schema", "cs": cs, "csv": raised_with_values(lambda: cls.check_schema(bad)),
+                   "mfv": _vals(first), "mrv": raised_with_values(lambda: _JS.validate(J, bad, cls=cls)),
+                   "mf": {"k": "err", "e": errrec.obs_err(first)},
+                   "mr": raised(lambda: _JS.validate(J, bad, cls=cls)), "mr2": raised(lambda: _JS.validate(J, bad, cls=cls)), "spy": spy.n}
+            for f in ("mr", "mr2", "cs"):
+                rec[f].pop("what", None)
+            recs.append(rec)
+            real[rid] = {"draft": d, "schema": bad, "history": "module validate() on the look-alike %r first" % (good,), "instance": {"a": [1]},
+                         "class_from_$schema": False, "format_checker": False}
+            kinds["invalid-schema"] += 1
+            ck.count((d, repr(bad), "after twin"), True)
     ck.notes["records_by_kind"] = kinds
     bad, states = tlc.validate_trace("trace/Trace_C04.tla", recs, "c04", shards=16)
     ck.states += states
